@@ -46,6 +46,7 @@ LEVEL = "proof"
 PY = sys.executable
 LINE_BREAKS = "\n\x0b\x0c\r\x1c\x1d\x1e\x85\u2028\u2029"
 CACHE_NAME = "claude-statusline"
+CURRENT_FIXES = [True, True, True]      # Statusline.fixes: guard (c6068c5), str-only transcript_path (fe4fc32), one line (16f7bd5)
 MCP_NAME = ["mcp.cache"]      # file name of the MCP server-list cache; re-read from the repository by repo_constants()
 T_PH = "@T@"     # placeholder for the case's transcript path inside generated values
 W_PH = "@W@"     # placeholder for the case's work directory
@@ -309,7 +310,8 @@ def setup_case(sc, scratch, d):
             name_ok = False
     exp["name_ok"] = name_ok
     exp["path_is_dir"] = False
-    if name_ok and not exp["cachedir_file"]:
+    aliased = spath is not None and spath == os.path.join(cdir, MCP_NAME[0])     # only in a repository where the alias exists
+    if name_ok and not exp["cachedir_file"] and not aliased:
         if cs[0] == "text":
             write_bytes(spath, cs[1].encode("utf-8", "surrogatepass"), age=cs[2])
             try:
@@ -692,7 +694,7 @@ def compare_model(sc, exp, obs, d, model, out, record=False):
     inp = [jenc(value)] if exp["inp_ok"] else []
     inv = ["t", str(obs["pid"]), inp, "0", "ok", exp["sesc"]]
     oracles = make_oracles(exp, d)
-    res = model.call(["sl_run", base, True, inv], oracles, record=record)
+    res = model.call(["sl_run", base, CURRENT_FIXES, inv], oracles, record=record)
     m_exit, m_out, m_tb, m_served, m_store, m_refresh = res
     diffs = []
     r_exit = obs["rc"] == 0
@@ -716,7 +718,12 @@ def compare_model(sc, exp, obs, d, model, out, record=False):
     cdir_rel = os.fsencode(os.path.join("xdg", CACHE_NAME))
     def rel(p):
         return os.path.relpath(os.fsencode(p), os.fsencode(d))
-    expected = {p: h for p, h in obs["before"].items() if p.startswith(cdir_rel + b"/") and not p.startswith(cdir_rel + b"/" + MCP_NAME[0].encode())}
+    mcp_re = re.compile(re.escape(cdir_rel + b"/" + MCP_NAME[0].encode()) + rb"(\.tmp\.\d+)?(/.*)?$")     # the MCP cache and its tmp files
+
+    def session_files(snap):
+        return {p: h for p, h in snap.items() if p.startswith(cdir_rel + b"/") and not mcp_re.match(p)}
+
+    expected = dict(obs["before"])
     try:
         if m_store[0] == "stored":
             expected[rel(m_store[1])] = hashlib.sha1(m_store[3].encode("utf-8")).hexdigest()
@@ -724,7 +731,8 @@ def compare_model(sc, exp, obs, d, model, out, record=False):
             expected[rel(m_store[1])] = hashlib.sha1(m_store[2].encode("utf-8")).hexdigest()
     except (UnicodeEncodeError, ValueError):
         diffs.append("store: model stored an unencodable path or text")
-    real = {p: h for p, h in obs["after"].items() if p.startswith(cdir_rel + b"/") and not p.startswith(cdir_rel + b"/" + MCP_NAME[0].encode())}
+    expected = session_files(expected)
+    real = session_files(obs["after"])
     if expected != real and not (m_exit == "0" and m_out == ""):
         only_m = sorted(set(expected.items()) - set(real.items()))[:3]
         only_r = sorted(set(real.items()) - set(expected.items()))[:3]
@@ -745,7 +753,7 @@ def compare_model(sc, exp, obs, d, model, out, record=False):
 
 
 # ------------------------------------------------------------------------------------------ generators
-SIDS = ["", "abc", "7f9c2a1e-0b5d-4c3a-9e8f-123456789abc", "a/b", "a_b", "/", "//", "../../x/y", "../escape", "/tmp/abs", "..", ".", "./.",
+SIDS = ["", "abc", "mcp", "mcp.servers", "mcp.servers.tmp.1", "7f9c2a1e-0b5d-4c3a-9e8f-123456789abc", "a/b", "a_b", "/", "//", "../../x/y", "../escape", "/tmp/abs", "..", ".", "./.",
         "a\x00b", "x" * 10240, "y" * 245, "y" * 250, "\udc80", "\ud800", "é漢\U0001f600", " ", "a\nb", "-rf", ".cache",
         "default", "a\\b", "CON", "~", "$(id)", "*", "x.cache.tmp.1"]
 SID_NONSTR = [None, 0, 5, -1, 1.5, 0.0, True, False, [], [1], {}, {"a": 1}, ["a/b"]]
@@ -989,6 +997,9 @@ def check_paths(model, scratch, out, rng, n_random):
             out.disagreements.append({"correspondence": "Statusline.get_cache_path <-> dippy_statusline.get_cache_path",
                                       "session_id": repr(sid), "model": [mdir, mp], "impl": [cdir, rp]})
         # the property itself, on the real function
+        if rp and rp[0] == real["mcp"]:
+            out.violations.append({"kind": "atomic", "what": "a session id is mapped onto the MCP server-list cache, which the refresh pipeline writes without the protocol",
+                                   "check": "paths", "session_id": repr(sid), "path": rp[0], "signature_text": "alias:mcp path " + repr(sid)})
         if rp:
             path = rp[0]
             name = os.path.basename(path)
@@ -1016,7 +1027,7 @@ def run_history(scratch, model, out, invs, label):
     oracles = make_oracles(exp, d)
     oracles["mcp_cache"] = lambda tag: [["0", ""]]
     minv = [[f"t{k}", str(pids[k]), [jenc(v)], "0", "ok", exp["sesc"]] for k, v in enumerate(invs)]
-    res = model.call(["sl_history", base, [], minv], oracles)
+    res = model.call(["sl_history", base, [], minv, CURRENT_FIXES], oracles)
     out.case(["history", invs], nontrivial=len(invs) > 1)
     out.count("history", label)
     for k, ((rc, so, se), m) in enumerate(zip(outs, res)):
@@ -1089,8 +1100,8 @@ def alias_mcp(scratch, model, out):
                            cwd=os.path.join(d2, "work"))
         own.append(q.stdout)
     out.count("alias", "mcp")
-    if mp != [os.path.join(mdir, MCP_NAME[0])] and MCP_NAME[0] == "mcp.cache":
-        out.disagreements.append({"correspondence": "sl_path mcp", "model": mp})
+    if mp == [os.path.join(mdir, MCP_NAME[0])]:
+        out.disagreements.append({"correspondence": "sl_path: session id 'mcp' vs the MCP cache path", "model": mp, "impl": MCP_NAME[0]})
     if p2.stdout not in own and p2.stdout != lines[0]:
         out.violations.append({"kind": "atomic", "what": "session id \"mcp\" shares its entry (and its tmp name) with the MCP server cache: the line served is the output of the refresh pipeline, not of any invocation",
                                "served": repr(p2.stdout[:300]), "lines_of_invocations": [repr(x[:200]) for x in own],
@@ -1475,7 +1486,7 @@ def run(tier, seed, replay=None):
             cases += [("random", random_sc(rng)) for _ in range(n_rand)]
             cases += [("malformed", malformed_sc(rng)) for _ in range(n_mal)]
             cases.append(("git-timeout", base_sc(normal_value(rng), git=GIT_SLOW)))
-            # known findings are re-demonstrated from their witnesses on every run
+            # the witnesses of the repaired defects (fe4fc32, 16f7bd5) stay in the stream
             cases.append(("witness", base_sc({"context_window": {"context_window_size": 100}, "transcript_path": True})))
             cases.append(("witness", base_sc({"session_id": "w", "model": {"display_name": "clean"}}, cache=["text", "stale\nentry", 0])))
             with concurrent.futures.ThreadPoolExecutor(max_workers=12) as ex:
